@@ -196,10 +196,17 @@ pub fn generate(sink: &mut Sink, seed: u64, thorough: bool) {
     }
     // ---------------------------------------------------------------- 2. faults (C16)
     let nfault = if thorough { 120 } else { 25 };
-    for _ in 0..nfault {
+    for fi in 0..nfault {
         let prog = {
             let mut g = Gen { rng: &mut rng, exts: vec![], n: 0 };
-            g.program(8)
+            let mut p = g.program(8);
+            // every fourth program writes an image (half of them carry masks: two blobs per call)
+            if fi % 4 == 0 {
+                let im = g.image();
+                let at = p.stmts.len() - 1;
+                p.stmts.insert(at, im);
+            }
+            p
         };
         let ideal_dev = SimDev::new(vec![]);
         let ideal = execute(&prog, &ideal_dev);
